@@ -21,7 +21,7 @@ func init() {
 			"model-free relations on library results only: ancestor/descendant/following/preceding/self partition of all tree nodes, the four dual pairs over all node pairs, root has no parent/siblings, top-level children's sibling axes, ancestor reaches root. " +
 			"distinct_nontrivial = distinct (document shape, context kind, axis, test class) whose expected set is non-empty and not the whole document",
 		Assumptions: []string{"name tests on the namespace axis are outside the statement and not generated", "absolute paths are only evaluated with the root cursor as starting node", "attribute / namespace-node order inside one element is taken from the store"},
-		NCases:      func(tier string) int { return map[string]int{"quick": 800, "thorough": 30000}[tier] },
+		NCases:      func(tier string) int { return map[string]int{"quick": 800, "thorough": 15000}[tier] },
 		Case:        c01Case,
 	})
 }
